@@ -114,6 +114,13 @@ impl Registry {
         for &(ref prefix, ref value) in &self.prefixes {
             if let Some(name) = name.strip_prefix(prefix) {
                 if let Some(canonicalized) = self.canonicalize_exact(name) {
+                    // Prefixes don't stack, so an alias that expands to a
+                    // prefixed unit (click -> kilometer) is kept as is.
+                    let canonicalized = if self.lookup_exact(&canonicalized).is_some() {
+                        canonicalized
+                    } else {
+                        name.to_owned()
+                    };
                     let mut prefix = prefix;
                     for &(ref other, ref otherval) in &self.prefixes {
                         if other.len() > prefix.len() && value == otherval {
